@@ -52,6 +52,8 @@ def handle (line : String) : String :=
   | "amp" :: args => Driver.PassP.handle "amp" args
   | "ent" :: args => Driver.PassP.handle "ent" args
   | "strip" :: args => Driver.PassP.handle "strip" args
+  | "wrap" :: args => Driver.PassP.handle "wrap" args
+  | "pre" :: args => Driver.PassP.handle "pre" args
   | "cdesc" :: args => Driver.PassP.handle "cdesc" args
   | "cdrt" :: args => Driver.PassP.handle "cdrt" args
   | "inltag" :: args => Driver.InlP.handle args
